@@ -123,6 +123,19 @@ def psd_checks(which):
             check('monotone-in-band', bool(f(a, c) + 1e-15 >= f(a, b) and f(a, c) + 1e-15 >= f(b, c)))
             g = float(I.bandlimited_rms(r, p, wllow=1 / c, wlhigh=1 / a))
             check('periods-equal-frequencies', bool(np.isclose(g, f(a, c), rtol=1e-9)))
+            # bands open at one end (the other edge omitted), by frequency and by period: the omitted edge is the end of the data's
+            # frequency range, so the open band is the explicit one, and the algebra above holds for it as well
+            import warnings
+            with warnings.catch_warnings():
+                warnings.simplefilter('ignore')
+                top = float(r.max()) * (1 + 1e-9)
+                open_top = float(I.bandlimited_rms(r, p, flow=a))
+                check('open-topped-band-is-the-band-to-the-largest-frequency', bool(np.isclose(open_top, f(a, top), rtol=1e-9)))
+                check('open-topped-band-additive-and-monotone', bool(np.isclose(open_top ** 2, f(a, c) ** 2 + f(c, top) ** 2, rtol=1e-9, atol=1e-14)
+                                                                     and open_top + 1e-15 >= f(a, c)))
+                check('open-bottomed-band-starts-at-zero', bool(np.isclose(float(I.bandlimited_rms(r, p, fhigh=c)), f(0, c), rtol=1e-9)))
+                check('lone-long-period-is-the-open-topped-band', bool(np.isclose(float(I.bandlimited_rms(r, p, wlhigh=1 / a)), f(a, top), rtol=1e-9)))
+                check('lone-short-period-is-the-band-from-zero', bool(np.isclose(float(I.bandlimited_rms(r, p, wllow=1 / c)), f(0, c), rtol=1e-9)))
             # a band that starts at zero frequency contains the zero-frequency sample
             check('band-from-zero-includes-dc', bool(np.isclose(f(0, c) ** 2, f(0, a) ** 2 + f(a, c) ** 2, rtol=1e-9, atol=1e-14)
                                                      and f(0, a) ** 2 >= p[H // 2, W // 2] / (W * dx) / (H * dx) * 0.24))
@@ -141,7 +154,17 @@ def psd_checks(which):
         mask = None
         if rng.random() < 0.6:
             yy, xx = np.mgrid[:samples, :samples]
-            mask = (np.hypot(yy - samples // 2, xx - samples // 2) <= samples * rng.uniform(0.3, 0.5)).astype(float)
+            rad = np.hypot(yy - samples // 2, xx - samples // 2)
+            R = samples * rng.uniform(0.3, 0.5)
+            style = int(rng.integers(0, 4))
+            if style == 0:
+                mask = (rad <= R).astype(float)
+            elif style == 1:
+                mask = rad <= R                                    # boolean
+            elif style == 2:
+                mask = np.clip(R + 0.5 - rad, 0, 1)                # anti-aliased edge: transmission between 0 and 1 on the rim
+            else:
+                mask = (rad <= R) * rng.uniform(0.2, 3.0, rad.shape)      # any non-zero value marks a valid sample
         x, y, zz = I.render_synthetic_surface(float(rng.uniform(5, 50)), samples, rms=target, mask=mask, a=float(rng.uniform(0.5, 5)),
                                               b=float(rng.uniform(0.001, 0.1)), c=float(rng.uniform(1.5, 3)))
         fin = np.isfinite(zz)
